@@ -38,7 +38,8 @@ Definition ascii_space (c : N) : bool := ((9 <=? c) && (c <=? 13)) || ((28 <=? c
 Record utable := {
   alnum_hi : N -> bool;      (* str.isalnum() above 127 *)
   space_hi : N -> bool;      (* str.isspace() above 127 *)
-  xid_hi : N -> bool         (* ("a" + c).isidentifier() above 127, i.e. XID_Continue *)
+  xid_hi : N -> bool;        (* ("a" + c).isidentifier() above 127, i.e. XID_Continue *)
+  digit_hi : N -> bool       (* str.isdigit() above 127 *)
 }.
 
 Definition isalnum (u : utable) (c : N) : bool := if c <? 128 then ascii_alnum c else alnum_hi u c.
@@ -49,9 +50,11 @@ Definition is_word_char (u : utable) (c : N) : bool := isalnum u c || (c =? cUND
 Definition is_id_char (u : utable) (c : N) : bool :=
   if c <? 128 then ascii_alnum c || (c =? cUNDER) else xid_hi u c.
 
-Definition table_of (al sp xi : list N) : utable :=
+Definition isdigit (u : utable) (c : N) : bool := if c <? 128 then (48 <=? c) && (c <=? 57) else digit_hi u c.
+
+Definition table_of (al sp xi dg : list N) : utable :=
   {| alnum_hi := fun c => existsb (N.eqb c) al; space_hi := fun c => existsb (N.eqb c) sp;
-     xid_hi := fun c => existsb (N.eqb c) xi |}.
+     xid_hi := fun c => existsb (N.eqb c) xi; digit_hi := fun c => existsb (N.eqb c) dg |}.
 
 (* str.strip() *)
 Fixpoint lstrip (u : utable) (s : text) : text :=
